@@ -463,11 +463,60 @@ def coq_mspec(m, pkg):
                coq_list("(%s, %s)" % (coq_str(p["name"]), coq_pkind(p, pkg)) for p in m["params"])))
 
 
-def render_coq_pkg(pkg, prefix):
-    """Coq definitions shared by the cases of one package: E_<prefix>, I_<prefix>_<iface>, S_<prefix>_<iface>_<method>, H_..."""
-    out = ["Definition E_%s : env := %s." % (prefix, coq_env(pkg))]
+def coq_texpr_ast(t):
+    k = t["k"]
+    if k == "ident":
+        return "TIdent %s" % coq_str(t["n"])
+    if k == "sel":
+        return "TSel %s %s" % (coq_str(t["pkg"]), coq_str(t["n"]))
+    if k == "map":
+        return "TMapT"
+    if k == "star":
+        return "TStar (%s)" % coq_texpr_ast(t["t"])
+    return "TOther"
+
+
+def coq_env_ast(ast, fname):
+    """the env record from what harness/go/cmd/restast read in the Go sources (go/parser, as shoot does)"""
+    ftypes = coq_list("(%s, %s)" % (coq_str(t["name"]), coq_bool(t["struct"])) for t in ast["files"][fname])
+    sel = ['(("context", "Context"), SelCtx)'] + ["((%s, %s), SelNamed)" % (coq_str(a), coq_str(b)) for a, b in ast["named"]]
+    structs = []
+    for sd in ast["structs"]:
+        fds = coq_list("{| fd_names := %s; fd_type := %s; fd_star := %s; fd_tag := %s |}"
+                       % (coq_list(coq_str(n) for n in f["names"]), coq_str(f["type"]), coq_bool(f["star"]),
+                          "None" if f["tag"] is None else "Some %s" % coq_str(f["tag"])) for f in sd["fields"])
+        structs.append("((%s, %s), %s)" % (coq_str(sd["pkg"]), coq_str(sd["name"]), fds))
+    return "{| e_file_types := %s; e_sel := %s; e_structs := %s |}" % (ftypes, coq_list(sel), coq_list(structs))
+
+
+def coq_iface_ast(ifc):
+    items = []
+    for it in ifc["items"]:
+        doc = "None" if it["doc"] is None else "Some %s" % coq_str(it["doc"])
+        if it["embed"]:
+            items.append("IEmbed (%s)" % doc)
+        else:
+            ps = coq_list("{| pd_names := %s; pd_type := %s |}" % (coq_list(coq_str(n) for n in p["names"]), coq_texpr_ast(p["type"]))
+                          for p in it.get("params") or [])
+            items.append("IMethod {| md_name := %s; md_doc := %s; md_params := %s |}" % (coq_str(it["method"]), doc, ps))
+    return coq_list(items)
+
+
+def render_coq_pkg(pkg, prefix, ast=None):
+    """Coq definitions shared by the cases of one package: E_<prefix>_<iface>, I_<prefix>_<iface>,
+    S_<prefix>_<iface>_<method>, H_<prefix>_<iface>.  With ast (the output of restast for the rendered
+    package) the generator-side input (env, interface, doc comments) is what go/parser read in the very
+    sources shoot was run on; without it, it is rendered from the abstract package."""
+    out = []
+    by = {i["name"]: i for i in (ast["ifaces"] if ast else [])}
     for ifc in pkg["ifaces"]:
-        out.append("Definition I_%s_%s : iface := %s." % (prefix, ifc["name"], coq_iface(ifc, pkg)))
+        if ast:
+            a = by[ifc["name"]]
+            out.append("Definition E_%s_%s : env := %s." % (prefix, ifc["name"], coq_env_ast(ast, a["file"])))
+            out.append("Definition I_%s_%s : iface := %s." % (prefix, ifc["name"], coq_iface_ast(a)))
+        else:
+            out.append("Definition E_%s_%s : env := %s." % (prefix, ifc["name"], coq_env(pkg)))
+            out.append("Definition I_%s_%s : iface := %s." % (prefix, ifc["name"], coq_iface(ifc, pkg)))
         out.append("Definition H_%s_%s : list (string * string) := %s." % (prefix, ifc["name"], coq_pairs(ifc["headers"] or [])))
         for m in ifc["methods"]:
             out.append("Definition S_%s_%s_%s : mspec := %s." % (prefix, ifc["name"], m["name"], coq_mspec(m, pkg)))
